@@ -37,6 +37,115 @@ func runC16(r *Run) {
 	for h := 0; h < n; h++ {
 		c16Run(r, h)
 	}
+	for h := 0; h < n/4+1; h++ {
+		c16FailedAttempt(r, h)
+	}
+}
+
+// c16FailedAttempt: a reconnect attempt that fails half-way. The client has two monitors. Its connection
+// is cut; during the first reconnect attempt the reply of the first restarted monitor is held (pause point
+// monitor.reply-received) while another client inserts a row the client is notified of on that new
+// connection; that connection is cut too, the row is deleted behind the client's back, and the attempt
+// is let go (it fails at the second monitor). The next attempt must start from scratch: nothing deferred
+// on the dead connection may be replayed.
+func c16FailedAttempt(r *Run, h int) {
+	rng := r.Rng
+	ts := genTxnSchema(rng, false)
+	// two root tables to monitor separately
+	var roots []TableSpec
+	for _, t := range ts.Spec.Tables {
+		if t.IsRoot {
+			roots = append(roots, t)
+		}
+	}
+	if len(roots) < 2 {
+		return
+	}
+	rig, err := newRig(ts)
+	if err != nil {
+		return
+	}
+	defer rig.Close()
+	px, err := newProxy(rig.sock)
+	if err != nil {
+		return
+	}
+	defer px.Close()
+	ctx, cancel := ctxT(40 * time.Second)
+	defer cancel()
+	writer, _, err := rig.newClient(rig.endpoint())
+	if err != nil || writer.Connect(ctx) != nil {
+		return
+	}
+	defer writer.Close()
+	a, adb, err := rig.newClient(px.endpoint(), client.WithReconnect(2*time.Second, backoff.NewConstantBackOff(3*time.Millisecond)))
+	if err != nil || a.Connect(ctx) != nil {
+		return
+	}
+	defer a.Close()
+	cols := map[string][]string{roots[0].Name: nil, roots[1].Name: nil}
+	plans := []monPlan{{Method: monitorMethods[rng.Intn(3)], Cols: map[string][]string{roots[0].Name: nil}},
+		{Method: monitorMethods[rng.Intn(3)], Cols: map[string][]string{roots[1].Name: nil}}}
+	cs := map[string]interface{}{"model": ts.modelJSON(), "monitors": plans, "schedule": "failed reconnect attempt"}
+	for _, p := range plans {
+		if _, err := a.Monitor(ctx, p.monitor()); err != nil {
+			return
+		}
+	}
+	ins := func(t TableSpec, n int) OperationJ {
+		return OperationJ{Op: "insert", Table: t.Name, UUID: mkUUID(800000 + h*10 + n), Row: Row{"name": VA(AS(fmt.Sprintf("x%d-%d", h, n))), "n": VA(AI(int64(900000 + h*10 + n)))}}
+	}
+	_, _ = writer.Transact(ctx, ins(roots[0], 0).toOvs(), ins(roots[1], 1).toOvs())
+	r.Case("failed-attempt", fmt.Sprint(h))
+	pp := pauses.arm("monitor.reply-received")
+	px.cutNow() // the client starts reconnecting
+	if !pp.waitReached(10 * time.Second) {
+		pauses.disarm("monitor.reply-received")
+		r.Violation("failed-attempt", cs, "the reconnecting client never restarted a monitor", "", true, "no reconnect attempt", "")
+		return
+	}
+	// rows the client is told about on the connection that is about to die (one per table: whichever monitor was restarted first)
+	x0, x1 := ins(roots[0], 2), ins(roots[1], 3)
+	_, _ = writer.Transact(ctx, x0.toOvs(), x1.toOvs())
+	px.block(true)
+	px.cutNow()
+	// ... and that disappear again while the client is away
+	_, _ = writer.Transact(ctx, OperationJ{Op: "delete", Table: x0.Table, Where: byUUID(x0.UUID)}.toOvs(), OperationJ{Op: "delete", Table: x1.Table, Where: byUUID(x1.UUID)}.toOvs())
+	pp.Release()
+	time.Sleep(20 * time.Millisecond) // the first attempt fails at its second monitor
+	px.block(false)
+	deadline := time.Now().Add(8 * time.Second)
+	ok := false
+	for time.Now().Before(deadline) {
+		if a.Connected() {
+			ectx, ec := ctxT(time.Second)
+			err := a.Echo(ectx)
+			ec()
+			if err == nil {
+				ok = true
+				break
+			}
+		}
+		time.Sleep(3 * time.Millisecond)
+	}
+	if !ok {
+		r.Violation("failed-attempt", cs, "not connected after 8s", "connected", true, "the client did not come back after a failed reconnect attempt", "")
+		return
+	}
+	_, _ = writer.Transact(ctx, ins(roots[0], 4).toOvs()) // barrier
+	var got, want string
+	for try := 0; try < 200; try++ {
+		want = dumpCanon(projectDump(ts.Spec, rig.im.dump(), cols))
+		got = dumpCanon(projectDump(ts.Spec, cacheDump(a, adb, tablesOf(cols)), cols))
+		if got == want {
+			break
+		}
+		time.Sleep(5 * time.Millisecond)
+	}
+	if got != want {
+		r.Violation("failed-attempt", cs, diffLines(got, want), "cache = database", true,
+			"after a reconnect attempt that failed half-way the cache does not converge to the database (something deferred on the dead connection was replayed, or lost)", "")
+	}
 }
 
 func c16Run(r *Run, h int) {
